@@ -425,7 +425,7 @@ def r2_registries(run, w):
     for s in walk_no_nested(fi.node):
       if isinstance(s, ast.Return) and s.value is not None:
         v = fview.res(s.value)
-        if isinstance(v, ast.Call) and endswith(dotted(v.func), "_rset._bisect_find",
+        if isinstance(v, ast.Call) and endswith(fview.t(v.func), "_rset._bisect_find",
                                                 "_rset._find_eq", "_rset._at"):
           kinds.add("record")
         elif isinstance(v, ast.BinOp) and all(
@@ -569,29 +569,19 @@ def r3_positions(run, w):
           isinstance(sd.args[1], ast.List) and not sd.args[1].elts
   run.ob(R3, q, "<patches>.setdefault(col_rec, []).append(patch)", "patches are collected under "
          "the record whose formula they index", ok, fi=fn.fi)
-  ok = False
-  retvar = None
-  for s in walk_no_nested(fn.node):
-    if not (isinstance(s, ast.For) and mapvar is not None and isinstance(s.target, ast.Tuple) and
-            len(s.target.elts) == 2):
-      continue
-    it = v.alias_root(s.iter)
-    if not (H._is_items_view(it) and it.func.value.id == mapvar):
-      continue
-    tm2 = v.loop_map(s)
-    for n in fn.cfg.nodes:
-      b = n.stmt
-      if n.kind == "stmt" and isinstance(b, ast.Assign) and len(b.targets) == 1 and \
-          isinstance(b.targets[0], ast.Subscript) and isinstance(b.targets[0].value, ast.Name) and \
-          any(y is b for z in s.body for y in ast.walk(z)) and \
-          v.t(b.targets[0].slice, tm2) == "_v0_0":
-        val = v.t(b.value, tm2)
-        if val == "textbuilder.Replacer(textbuilder.Text(_v0_0.formula), _v0_1).get_text()" and \
-            v.runs_for_all(s, b):
-          retvar = b.targets[0].value.id
-          ok = True
+  # the result: {record: its own formula with its own patches applied}, for every record
   rets = [s for s in walk_no_nested(fn.node) if isinstance(s, ast.Return)]
-  ok = ok and len(rets) == 1 and v.t(rets[0].value) == retvar
+  ok = False
+  if len(rets) == 1 and mapvar is not None:
+    try:
+      rc = v.collection(rets[0].value)
+    except AnalysisError:
+      rc = None
+    if rc is not None and rc.kind == "dict" and not rc.conds:
+      it = v.alias_root(rc.iter, at=v.point_of(rc.node) if rc.loop is None else
+                        v.loop_head(rc.loop))
+      ok = H._is_items_view(it) and it.func.value.id == mapvar and rc.key == "_v0_0" and \
+          rc.value == "textbuilder.Replacer(textbuilder.Text(_v0_0.formula), _v0_1).get_text()"
   run.ob(R3, q, "result[col_rec] = Replacer(Text(col_rec.formula), patches).get_text()",
          "the patches of a record are applied to that record's own formula text and returned "
          "under it", ok, fi=fn.fi)
